@@ -142,9 +142,10 @@ pub fn check_case(case: &Case, macros: &Mutex<MacroAlphabets>, tier: Tier) -> Op
     let vlevels = {
         let mut ex = Explorer::new(&*s, &grid, pc, Some(macros));
         let r = ex.run(&[]);
-        r.vlevels
+        // a pilot that was cut short (budget or time) has not seen the whole tree: treat the case as deep
+        if ex.cnt.budget_hit { r.vlevels.max(4) } else { r.vlevels }
     };
-    if vlevels >= 4 && tier == Tier::Quick {
+    if vlevels >= 4 && tier == Tier::Quick && std::env::var("VERIF_DEEP").is_err() {
         // four or more value-producing draws: the tree is not explorable at a useful resolution in the quick tier
         return Some(LawOutcome {
             label: case.label.clone(), ok: true, judged: false, worst_ratio: 0.0, worst_dev: 0.0, worst_tol: 0.0, worst_at: f64::NAN, worst_ref: f64::NAN, max_abs_dev: 0.0,
